@@ -1258,9 +1258,46 @@ func genHotBlock(r *rand.Rand) *blockCase {
 	return bc
 }
 
+// a block built around the known finding: some transactions, then a world READ
+// locker that reads account x, then a writer of x, then a tail.  Account x is
+// touched by nobody else, so the writer does not depend on anything the reader
+// waits for.
+func genWorldReadTarget(r *rand.Rand) *blockCase {
+	bc := &blockCase{Init: make([]int64, NA+1)}
+	for a := range bc.Init {
+		bc.Init[a] = int64(r.Intn(60))
+	}
+	x := NA - 1
+	na := 2 + r.Intn(3) // the other transactions use accounts 0..na-1 (< x)
+	plain := func() txSpec {
+		var prog []instr
+		for j := 0; j < r.Intn(4); j++ {
+			prog = append(prog, genInstr(r, na, false))
+		}
+		return txSpec{Locks: genLocks(r, prog, []int{0, 1, 1, 4}[r.Intn(4)], na), Prog: prog}
+	}
+	for i := 0; i < 1+r.Intn(3); i++ {
+		bc.Txs = append(bc.Txs, plain())
+	}
+	rd := []instr{{Op: "read", A: x}}
+	for j := 0; j < r.Intn(3); j++ {
+		rd = append(rd, instr{Op: "read", A: r.Intn(na)})
+	}
+	r.Shuffle(len(rd), func(i, j int) { rd[i], rd[j] = rd[j], rd[i] })
+	bc.Txs = append(bc.Txs, txSpec{Locks: []lockSpec{{ID: WORLD}}, Prog: rd})
+	bc.Txs = append(bc.Txs, txSpec{Locks: []lockSpec{{ID: x, W: true}}, Prog: []instr{{Op: "add", A: x, K: int64(1 + r.Intn(9))}}})
+	for i := 0; i < 1+r.Intn(2); i++ {
+		bc.Txs = append(bc.Txs, plain())
+	}
+	return bc
+}
+
 func genBlock(r *rand.Rand, worldRead bool) *blockCase {
 	if !worldRead && r.Intn(4) == 0 {
 		return genHotBlock(r)
+	}
+	if worldRead && r.Intn(3) == 0 {
+		return genWorldReadTarget(r)
 	}
 	na := 2 + r.Intn(NA-1) // 2..6 accounts in use
 	n := 2 + r.Intn(6)     // 2..7 transactions
@@ -1584,12 +1621,14 @@ func main() {
 	hxlib.Main(hxlib.Spec{
 		ID:       "C09",
 		Preamble: "From Goloop Require Import Model_VirtualState.\nFrom GoloopRun Require Import Run_C09.",
-		Rule: "blocks of 2..7 scripted transactions over <= 6 accounts + the system account, each transaction = lock requests declared through ctx.GetFuture in Prepare " +
-			"(exact read/write locks, all-write locks as the real handlers do, unused extra locks, world write lock, world read lock) + a program of 0..4 instructions " +
-			"(read / add / blind set / conditional transfer / touch, optionally guarded by a balance test) run against the WorldContext; " +
+		Rule: "blocks of 2..7 scripted transactions over <= 6 accounts + the system account; a transaction = lock requests declared through ctx.GetFuture in Prepare " +
+			"(exact read/write locks, all-write locks as the real handlers do, unused extra locks, world write lock, world read lock; optionally Ensure() in Prepare) + a program of 0..4 instructions " +
+			"(read / add / blind set / conditional transfer / touch, optionally guarded by a balance test; optionally a failing first attempt that is reset and retried) run against the WorldContext; " +
+			"generators: random blocks, blocks around one hot account with idle write lockers, blocks around a world read locker whose account a later transaction writes; " +
 			"each block is executed by the real executeTxsSequential and by the real executeTxsConcurrent (level 2..8) under 3..6 forced schedules " +
-			"(handlers park on gates before every account access and before returning): deterministic serial orders (latest-first linear extension of the dependency order), " +
-			"reverse-block-order priority, block-order priority, all gates open, round robin, random; " +
+			"(handlers park on gates before every account access and before returning; the dispatching goroutine can be parked before the last GetFuture): " +
+			"deterministic serial orders (latest-first / earliest-first / random linear extensions of the dependency order), reverse-block-order priority, block-order priority, random priority, " +
+			"round robin, random, all gates open; blocks with a world read lock use serial orders only and the model follows the same schedule; " +
 			"non-trivial = some transaction depends on the commit of an earlier one; distinct = distinct (level, balances, transactions, schedule)",
 		Gen: gen, Replay: replay,
 	})
